@@ -1,6 +1,8 @@
 import LunarVerif.Generated.C18Facts
 import LunarVerif.Spec.C18Sharing
 import LunarVerif.Proofs.C18Publish
+import LunarVerif.Proofs.C18Expire
+import LunarVerif.Spec.C18Expire
 /-!
 # C18 — Concurrent transactions do not corrupt or share engine state
 
@@ -184,5 +186,37 @@ theorem no_request_lost_extracted (ids : List Nat) (evs : List PEv) :
 /-- non-vacuity: two producers fully interleaved with loop passes are both handled -/
 example : (run [.prod 1, .prod 2, .prod 1, .tick, .prod 2, .prod 2, .prod 1, .prod 1, .prod 2, .prod 2, .tick, .tick]
     (init [(1, extractedProducer), (2, extractedProducer)])).handled.length = 2 := by decide
+
+end LunarVerif.C18
+
+/-! ## Part (d): the stored-request clean-up goroutine (model `Model/C18Expire.lean`) -/
+namespace LunarVerif.C18
+open Expire
+
+/-- For every history of stores, discards, clock movement and clean-up passes: a request that was
+    stored and not discarded since still holds its value at every instant before the deadline of its
+    LATEST store — the clean-up goroutine never takes away what a running transaction relies on. -/
+theorem live_request_survives (ops : List Op) (e : String × Nat)
+    (he : e ∈ (run ops {}).want) (hlt : (run ops {}).now < e.2) : e.1 ∈ (run ops {}).store :=
+  ((inv_run ops {} inv_init) e he).2 hlt
+
+/-- the judge's predicate is true of every model run (what `xsweep` reports is the store) -/
+theorem live_kept_holds (ops : List Op) :
+    liveKept (run ops {}) (run ops {}).store = true := by
+  unfold liveKept
+  rw [List.all_eq_true]
+  intro e he
+  by_cases hlt : (run ops {}).now < e.2
+  · have := live_request_survives ops e he hlt
+    simp [hlt, this]
+  · simp [hlt]
+
+/-- non-vacuity, the retry shape: stored, discarded by the first attempt's response, stored again by
+    the retry; a pass between the two deadlines leaves the retry's request in place -/
+example : "K" ∈ (run [.add "K" 150, .sleep 100, .discard "K", .add "K" 150, .sleep 100, .sweep] {}).store := by
+  decide
+
+/-- ... and a pass after the latest deadline removes it -/
+example : (run [.add "K" 150, .sleep 100, .add "K" 150, .sleep 200, .sweep] {}).store = [] := by decide
 
 end LunarVerif.C18
